@@ -69,41 +69,48 @@ def Ctx.allDems (c : Ctx) : List Dem :=
 
 /-! ## time -/
 
+/-- `actor.detail.time.end < s` (never for an open tour: the shift end is unbounded) -/
+def tooLate (v : Veh) (s : Int) : Bool :=
+  match v.endAt with
+  | some (_, T) => decide (T < s)
+  | none => false
+
+/-- the part of `evaluate_activity` after the shift-end pre-checks; `p` = (location, departure) of
+    `prev`, `rest` = the activities after the insertion point (incl. the arrival activity) -/
+def evalTimeCore (t : Nat → Nat → Int) (p : Nat × Int) (rest : List Act) (x : Act) : Verdict :=
+  match rest with
+  | [] =>
+    -- open end: only the target's own window binds (window specific: `skip`, not `fail`)
+    if p.2 + t p.1 x.loc > x.e then .skip
+    else if x.s > x.e then .skip
+    else .ok
+  | nx :: _ =>
+    let L := latestArr t rest
+    if p.2 + t p.1 nx.loc > L then .fail
+    else if x.s > L then .skip
+    else if p.2 + t p.1 x.loc > min x.e (L - t x.loc nx.loc - x.dur) then .skip
+    else if depOf x (p.2 + t p.1 x.loc) + t x.loc nx.loc > L then .skip
+    else .ok
+
+/-- window start of `prev` (the start activity's window starts at the earliest departure) -/
+def prevStart (v : Veh) (pre : List Act) : Int :=
+  match pre.getLast? with
+  | some a => a.s
+  | none => v.earliest
+
+def nextLate (v : Veh) (rest : List Act) : Bool :=
+  match rest with
+  | nx :: _ => tooLate v nx.s
+  | [] => false
+
 /-- MODEL of `TransportConstraint::evaluate_activity` for leg `i` (between activity `i` and `i+1` of
     `start :: jobs ++ end`) and target `x` -/
 def evalTime (t : Nat → Nat → Int) (v : Veh) (jobs : List Act) (i : Nat) (x : Act) : Verdict :=
   let pre := jobs.take i
-  let p := after t pre v.startLoc v.dep
   let rest := (v.full jobs).drop i
-  let prevS : Int := match pre.getLast? with
-    | some a => a.s
-    | none => v.earliest
-  let tooLate (s : Int) : Bool := match v.endAt with
-    | some (_, T) => decide (T < s)
-    | none => false
-  let nextLate : Bool := match rest with
-    | nx :: _ => tooLate nx.s
-    | [] => false
-  if tooLate prevS || nextLate then .fail
-  else if tooLate x.s then .skip     -- specific to the target's window: other windows/places may fit
-  else
-    match rest with
-    | [] =>
-      -- open end: only the target's own window binds (window specific: `skip`, not `fail`)
-      let L := x.e
-      if p.2 + t p.1 x.loc > L then .skip
-      else if x.s > L then .skip
-      else .ok
-    | nx :: _ =>
-      let L := latestArr t rest
-      if p.2 + t p.1 nx.loc > L then .fail
-      else if x.s > L then .skip
-      else
-        let arr := p.2 + t p.1 x.loc
-        let latestArrT := min x.e (L - t x.loc nx.loc - x.dur)
-        if arr > latestArrT then .skip
-        else if depOf x arr + t x.loc nx.loc > L then .skip
-        else .ok
+  if tooLate v (prevStart v pre) || nextLate v rest then .fail
+  else if tooLate v x.s then .skip     -- specific to the target's window: other windows/places may fit
+  else evalTimeCore t (after t pre v.startLoc v.dep) rest x
 
 /-! ## capacity -/
 
